@@ -283,6 +283,9 @@ func fieldValue(e layoutEntry, c []byte) uint64 {
 }
 
 func oracleC09(op string, args []string) string {
+	if op == "accs" {
+		return oracleAccS(args)
+	}
 	lay := loadLayout()
 	if len(args) != 4 {
 		return skip
@@ -442,6 +445,7 @@ func factsFromLayout() []accFact {
 func genAcc(g *Gen, w *bufio.Writer) {
 	fs := factsFromLayout()
 	per := g.N
+	genAccDNN(g, w, per*10)
 	for _, f := range fs {
 		size := 1
 		switch f.Store {
